@@ -1173,6 +1173,9 @@ struct Exec {
         for (auto& m : mv) {
             // sampling depends on the method only, not on catalog order
             Rng rng(mix3(e.sample_seed, 0xC4EC, (std::uint64_t)m.slot));
+            // aliases and routes draw from their own stream, so that the
+            // sampled tuples are the same under every flavour
+            Rng arng(mix3(e.sample_seed, 0xA11A5, (std::uint64_t)m.slot));
             auto& mr = plan.recs[m.rec];
             int k = m.si.arity;
             // legal argument classes per virtual position
@@ -1272,9 +1275,9 @@ struct Exec {
                         if ((am >> a) & 1u)
                             al.push_back(a);
                     args[vi].cls = tuple[vi];
-                    args[vi].alias = al[rng.below(al.size())];
+                    args[vi].alias = al[arng.below(al.size())];
                     args[vi].route =
-                        pick_route(rng, kc, e.routes, args[vi].alias);
+                        pick_route(arng, kc, e.routes, args[vi].alias);
                     ++vi;
                 }
                 verify_call(s, L, m, tuple, args, want, false, false, "C01");
@@ -2244,6 +2247,47 @@ RunResult run_plan(const Plan& plan, const ExecOpts& opts) {
     }
 
     if (plan.diff == "flavours") {
+        // only meaningful if every policy holds the same abstract registry
+        std::string ref_sig;
+        for (int pi = 0; pi < (int)plan.pols.size(); ++pi) {
+            const Registry& live = base.final_live[plan.pols[pi]];
+            Lattice L = make_lattice(plan, live);
+            std::ostringstream os;
+            for (int c = 0; c < L.n; ++c)
+                if (L.reg[c])
+                    os << c << ":" << L.anc[c] << ";";
+            std::vector<std::string> ms;
+            for (int mi : live.methods) {
+                std::ostringstream m;
+                m << "m" << plan.recs[mi].slot;
+                for (int c : plan.recs[mi].vp)
+                    m << "," << c;
+                std::vector<std::string> ds;
+                auto it = live.defs.find(mi);
+                if (it != live.defs.end())
+                    for (int di : it->second) {
+                        std::ostringstream d;
+                        d << "d" << plan.recs[di].body;
+                        for (int c : plan.recs[di].vp)
+                            d << "," << c;
+                        ds.push_back(d.str());
+                    }
+                std::sort(ds.begin(), ds.end());
+                for (auto& d : ds)
+                    m << "|" << d;
+                ms.push_back(m.str());
+            }
+            std::sort(ms.begin(), ms.end());
+            for (auto& m : ms)
+                os << m << ";";
+            if (pi == 0)
+                ref_sig = os.str();
+            else if (os.str() != ref_sig) {
+                base.status = RS_INVALID;
+                base.invalid_why = "flavours: registries differ";
+                return base;
+            }
+        }
         const std::map<std::string, std::string>* ref = nullptr;
         std::string refname;
         for (auto& kv : base.tables) {
